@@ -8,80 +8,9 @@
     model) and indexing the scope found before (the Rust code, scopes[found].get(x).unwrap()) read the same variable,
     and the model's "name vanished" branch is unreachable. *)
 From Pakhi Require Import Base Float64 Syntax Tables Lexer Interp.
-From Pakhi.Proofs Require Import Assoc Scope Unfold Frames WF WFOps FrameInv NoPanic HeapRW.
+From Pakhi.Proofs Require Import Assoc Scope Unfold Frames WF WFOps FrameInv SkelDefs NoPanicStep HeapRW.
 From Coq Require Import Lia ZArith.
 Local Open Scope nat_scope.
-
-Definition skel (ss : list scope) : list (list text) := map (map (@fst text value)) ss.
-
-Lemma skel_length ss : length (skel ss) = length ss.
-Proof. apply map_length. Qed.
-
-Lemma skel_truncate b ss : skel (truncate b ss) = truncate b (skel ss).
-Proof. unfold truncate, skel. rewrite map_length. symmetry. apply skipn_map. Qed.
-
-Lemma truncate_app_le {A} b (pre base : list A) : b <= length base -> truncate b (pre ++ base) = truncate b base.
-Proof.
-  intros H. unfold truncate. rewrite app_length.
-  replace (length pre + length base - b) with (length pre + (length base - b)) by lia.
-  rewrite skipn_app. rewrite skipn_all2 by lia. replace (length pre + (length base - b) - length pre) with (length base - b) by lia.
-  reflexivity.
-Qed.
-
-Lemma alist_set_keys {A} k (v : A) l : alist_has k l = true -> map fst (alist_set k v l) = map fst l.
-Proof.
-  unfold alist_has. induction l as [|[k' v'] r IH]; cbn [alist_get alist_set]; [discriminate|].
-  destruct (text_eqb k k') eqn:E.
-  - intros _. apply text_eqb_eq in E. subst. reflexivity.
-  - intros H. cbn [map fst]. rewrite IH by exact H. reflexivity.
-Qed.
-
-Lemma assign_var_skel x v : forall ss ss', assign_var x v ss = Some ss' -> skel ss' = skel ss.
-Proof.
-  induction ss as [|s r IH]; intros ss' H; cbn [assign_var] in H; [discriminate|].
-  destruct (alist_has x s) eqn:E.
-  - injection H as <-. unfold skel. cbn [map]. rewrite alist_set_keys by exact E. reflexivity.
-  - destruct (assign_var x v r) as [r'|] eqn:Er; [|discriminate]. injection H as <-.
-    unfold skel in *. cbn [map]. rewrite (IH r' eq_refl). reflexivity.
-Qed.
-
-(* the name is held by the same scopes: visibility and the innermost holder are functions of the skeleton *)
-Lemma alist_has_keys {A B} x (s : list (text * A)) (s' : list (text * B)) : map fst s = map fst s' -> alist_has x s = alist_has x s'.
-Proof.
-  unfold alist_has. revert s'. induction s as [|[k v] r IH]; intros [|[k' v'] r'] H; try discriminate; [reflexivity|].
-  cbn [map fst] in H. injection H as -> Hr. cbn [alist_get]. destruct (text_eqb x k'); [reflexivity|]. apply IH. exact Hr.
-Qed.
-
-Fixpoint holder (x : text) (ss : list scope) : option nat :=      (* depth of the innermost scope that has x *)
-  match ss with
-  | [] => None
-  | s :: r => if alist_has x s then Some 0 else option_map S (holder x r)
-  end.
-
-Lemma holder_skel x : forall ss ss', skel ss = skel ss' -> holder x ss = holder x ss'.
-Proof.
-  induction ss as [|s r IH]; intros [|s' r'] H; try discriminate; [reflexivity|].
-  unfold skel in H. cbn [map] in H. injection H as Hs Hr. cbn [holder].
-  rewrite (alist_has_keys x s s' Hs). rewrite (IH r' Hr). reflexivity.
-Qed.
-
-Lemma lookup_iff_holder x : forall ss, lookup_var x ss = None <-> holder x ss = None.
-Proof.
-  induction ss as [|s r IH]; cbn [lookup_var holder]; [tauto|].
-  unfold alist_has. destruct (alist_get x s); [split; discriminate|].
-  destruct (holder x r); cbn [option_map].
-  - split; intros H; [apply IH in H; discriminate|discriminate].
-  - split; intros _; [reflexivity|apply IH; reflexivity].
-Qed.
-
-Lemma lookup_is_holder x : forall ss v, lookup_var x ss = Some v ->
-  exists d s, holder x ss = Some d /\ nth_error ss d = Some s /\ alist_get x s = Some v.
-Proof.
-  induction ss as [|s r IH]; intros v H; cbn [lookup_var holder] in *; [discriminate|].
-  unfold alist_has. destruct (alist_get x s) as [w|] eqn:E.
-  - injection H as ->. exists 0, s. auto.
-  - destruct (IH v H) as (d & s0 & Hd & Hn & Hg). exists (S d), s0. rewrite Hd. auto.
-Qed.
 
 Section Sk.
 Variable code : list fstmt.
@@ -109,11 +38,7 @@ Lemma height_above F m : mwf m -> frame_fun F -> finv F m -> fbase F + 1 <= leng
 Proof. intros W FS FI. pose proof (finv_height code F m FS FI). pose proof (w_ne code m W). unfold fbase. lia. Qed.
 
 (* postconditions *)
-Definition Ske {A} (m : machine) (proj : A -> machine) (x : outcome A) : Prop :=
-  match x with Ok a => skel (m_scopes (proj a)) = skel (m_scopes m) | _ => True end.
-
-Definition Se (ev : expr -> machine -> outcome (value * machine)) : Prop :=
-  forall e m, mwf m -> expr_ok e = true -> Ske m (@snd value machine) (ev e m).
+Notation Se := (Se code).
 Definition Scl (cl : machine -> outcome machine) : Prop :=
   forall m F, mwf m -> frame_fun F -> finv F m -> match cl m with Ok m' => keep (fbase F) m m' | _ => True end.
 Definition Sip (ip : machine -> outcome machine) : Prop :=
@@ -168,16 +93,6 @@ Proof.
   cbn [Ske snd] in *. congruence.
 Qed.
 
-Lemma eval_indexes_skel is : forall m, mwf m -> forallb expr_ok is = true -> Ske m (@snd (list index) machine) (eval_indexes ev is m).
-Proof.
-  induction is as [|i r IH]; intros m Hm Hi; cbn [eval_indexes]; [reflexivity|].
-  cbn [forallb] in Hi. apply andb_true_iff in Hi as [Hi1 Hi2].
-  run_ev i m Hm Hi1 iv m1.
-  destruct iv; try exact I.
-  unfold get_list. destruct (nth_error (h_lists (m_heap m1)) a) as [l|]; cbn [bind]; [|exact I].
-  destruct l as [|[] ?]; try exact I;
-    (specialize (IH m1 W Hi2); destruct (eval_indexes ev r m1) as [[p m2]| | |]; cbn [bind]; try exact I; cbn [Ske snd] in *; congruence).
-Qed.
 End Loops.
 
 (** ** built-ins and printing leave the scopes alone *)
@@ -330,7 +245,7 @@ Qed.
 Lemma interp_step_keep ev : Pe ev -> Se ev -> Sip (interp_step code ev).
 Proof.
   intros Pev Sev m F Hm FS FI.
-  pose proof (interp_step_ok code Hcode ev Pev m Hm) as Post.
+  pose proof (interp_step_ok code Hcode ev Pev Sev m Hm) as Post.
   pose proof (height_above F m Hm FS FI) as Hh.
   destruct (interp_step code ev m) as [m'| | |] eqn:Eq; try exact I.
   cbn [post] in Post. destruct Post as (W' & _ & Fr). specialize (Fr F (or_introl FS) FI).
@@ -371,10 +286,10 @@ Proof.
       * destruct (assign_var x v (m_scopes m1)) as [ss|] eqn:Ea; [|unfold rt_err, fail_here, unexpected_at in Eq; destruct (stmt_at code (m_pc m1)); discriminate].
         injection Eq as <-. apply keep_of_skel. cbn [next set_pc set_scopes m_scopes]. rewrite (assign_var_skel _ _ _ _ Ea). exact K1.
       * destruct (lookup_var x (m_scopes m1)); [|unfold rt_err, fail_here, unexpected_at in Eq; destruct (stmt_at code (m_pc m1)); discriminate].
-        pose proof (eval_indexes_skel ev Pev Sev (i0 :: idx') m1 W1 Hidx) as K2.
+        pose proof (eval_indexes_skel code ev Pev Sev (i0 :: idx') m1 W1 Hidx) as K2.
         destruct (eval_indexes ev (i0 :: idx') m1) as [[path m2]| | |]; cbn [bind] in Eq; try discriminate. cbn [Ske snd] in K2.
         unfold here in Eq. destruct (stmt_at code (m_pc m2)) eqn:Es2; cbn [bind] in Eq; [|discriminate].
-        destruct (lookup_var x (m_scopes m2)) as [c|]; [|unfold rt_err, fail_here, unexpected_at in Eq; rewrite Es2 in Eq; discriminate].
+        destruct (lookup_var x (m_scopes m2)) as [c|]; [|discriminate].
         destruct (assign_path m2 c path v (stmt_pos f)) as [m3| | |] eqn:Ea; cbn [bind] in Eq; try discriminate. injection Eq as <-.
         apply keep_of_skel. cbn [next set_pc m_scopes].
         assert (m_scopes m3 = m_scopes m2).
@@ -446,16 +361,25 @@ Proof.
   destruct s; try exact Go. apply keep_refl.
 Qed.
 
-Theorem skeleton_fuel : forall f, Se (eval code f) /\ Scl (call_loop code f) /\ Sip (interp code f).
+(** ** all fuel: the no-panic layers and the skeleton layers need each other (one statement reads its variable again after
+    its index expressions), so they are tied together in one induction *)
+Theorem all_invariants_fuel : forall f,
+  (Pe (eval code f) /\ Pcl (call_loop code f) /\ Pip (interp code f)) /\
+  (Se (eval code f) /\ Scl (call_loop code f) /\ Sip (interp code f)).
 Proof.
-  induction f as [|f (IHe & IHc & IHi)].
-  - repeat split; intros; cbn; exact I.
-  - destruct (no_panic_fuel code Hcode f) as (Pe_ & Pc_ & Pi_).
-    split; [|split].
+  induction f as [|f ((Pe_ & Pc_ & Pi_) & (IHe & IHc & IHi))].
+  - split; (split; [|split]); intros ?; intros; cbn; exact I.
+  - split; (split; [|split]).
+    + intros e m Hm He. rewrite eval_S. apply eval_step_ok; auto.
+    + intros m F Hm FS FI. rewrite call_loop_S. apply call_loop_step_ok; auto.
+    + intros m Hm. rewrite interp_S. apply interp_step_ok; auto.
     + intros e m Hm He. rewrite eval_S. apply eval_step_skel; auto.
     + intros m F Hm FS FI. rewrite call_loop_S. apply call_loop_step_keep; auto.
     + intros m F Hm FS FI. rewrite interp_S. apply interp_step_keep; auto.
 Qed.
+
+Theorem skeleton_fuel : forall f, Se (eval code f) /\ Scl (call_loop code f) /\ Sip (interp code f).
+Proof. intros f. apply all_invariants_fuel. Qed.
 
 (** ** corollaries *)
 Theorem expressions_keep_the_names_of_every_scope fuel e m v m' : mwf m -> expr_ok e = true ->
@@ -475,8 +399,8 @@ Theorem index_expressions_keep_the_target fuel is m path m2 x : mwf m -> forallb
   skel (m_scopes m2) = skel (m_scopes m) /\ holder x (m_scopes m2) = holder x (m_scopes m) /\
   (lookup_var x (m_scopes m) <> None -> lookup_var x (m_scopes m2) <> None).
 Proof.
-  intros Hm Hi H. destruct (skeleton_fuel fuel) as (S_ & _ & _). destruct (no_panic_fuel code Hcode fuel) as (P_ & _ & _).
-  pose proof (eval_indexes_skel (eval code fuel) P_ S_ is m Hm Hi) as K. rewrite H in K. cbn [Ske snd] in K.
+  intros Hm Hi H. destruct (all_invariants_fuel fuel) as ((P_ & _ & _) & (S_ & _ & _)).
+  pose proof (eval_indexes_skel code (eval code fuel) P_ S_ is m Hm Hi) as K. rewrite H in K. cbn [Ske snd] in K.
   pose proof (holder_skel x _ _ K) as Hh. split; [exact K|]. split; [exact Hh|].
   rewrite !lookup_iff_holder, Hh. tauto.
 Qed.
